@@ -371,6 +371,10 @@ func TestC18(t *testing.T) {
 					ev.Violation(rt, "C18", rp, "no target at all: Dial returned %q, want \"no address\"", retErr)
 				}
 				cl = append(cl, "no_address")
+			} else if cancelAt >= 0 && cancelAt == retAt {
+				// the caller cancelled at the very instant Dial returned: errors of attempts that
+				// ended at that instant may or may not have been collected - any error is fine
+				cl = append(cl, "cancel_tie")
 			} else if !errors.Is(retErr, context.Canceled) {
 				for _, f := range finishes {
 					if !f.OK && !errors.Is(retErr, sentinels[f.Target]) {
